@@ -1,5 +1,5 @@
 import FitModel.Bits
-import FitModel.Generated.Go_decoder
+import FitModel.Generated.Go_decoderbits
 import Driver.Util
 /-!
 Search for a store and a bit size on which `(*bits).Pull` translated from decoder/bits.go differs from the model's
@@ -22,7 +22,7 @@ def main : IO Unit := do
   let mut k := 0
   for ws in stores do
     for n in [0, 1, 7, 8, 13, 31, 32, 33, 63, 64, 65, 128, 192, 200, 255] do
-      let g := (Go.decoder.bits.Pull ⟨ws⟩ n).map (fun r => (r.2, r.1.store))
+      let g := (Go.decoderbits.bits.Pull ⟨ws⟩ n).map (fun r => (r.2, r.1.store))
       let m := some ((pull ws n).1, (pull ws n).2)
       if g != m && k < 5 then
         k := k + 1
